@@ -329,7 +329,7 @@ theorem step_s0_good (orc : Oracle) (m : PM) (f : Frame) (rest : List Frame) (to
       split
       · exact good_rejectWith _ _ _ _ _ _ hle
       · simp only [runValid_spec]
-        generalize ({ writeBack p f' with cfg := (writeBack p f').cfg.setLine f'.cfg.line } : Frame) = p2
+        generalize ({ writeBack p f' with cfg := (writeBack p f').cfg.afterSection f'.cfg } : Frame) = p2
         cases hv : validVerdict orc m0.k p2 with
         | none =>
           simp only [Option.map_none]
